@@ -1,10 +1,10 @@
 SPECIFICATION Spec
 CONSTANTS
-  MaxLen = 5
-  EmitFrom = 1
+  MaxLen = 4
+  EmitFrom = 100
   GraphIdempotent = TRUE
   CacheTransparent = TRUE
   SerialsMemoised = TRUE
-  ScopeFixed = TRUE
-INVARIANTS Emit
+  ScopeFixed = FALSE
+INVARIANTS C19_GraphStable
 CHECK_DEADLOCK FALSE
